@@ -20,7 +20,7 @@ From XmlRs Require Import Proofs.XPathNav Proofs.XPathAstPred Proofs.XPathCanon 
   Proofs.XPathRefinePaths Proofs.XPathTreeOnly.
 From XmlRs Require Import Model.Store Model.StoreView Model.DomOps
   Proofs.DomTree Proofs.DomOpsInv Proofs.DomOrder Proofs.DomOrderInv
-  Proofs.StoreViewBase Proofs.StoreViewWalk Proofs.StoreXDoc Proofs.StoreXDocShape.
+  Proofs.StoreViewBase Proofs.StoreViewWalk Proofs.StoreXDoc Proofs.StoreXDocShape Proofs.StoreXDocNames.
 Import ListNotations.
 Open Scope N_scope.
 
@@ -36,8 +36,8 @@ Proof. apply view_shape. Qed.
 (** the names of rows that are not elements or attributes are as [NamesOk] wants them: only the
     namespace part of C10 remains a hypothesis *)
 Theorem bridge_names F merged s :
-  ElemNamesOk (xdoc_of_store F merged s) -> NamesOk (xdoc_of_store F merged s).
-Proof. apply view_names. Qed.
+  TreeInv s -> doc_element s <> None -> doc_decl s = None -> NamesOk (xdoc_of_store F merged s).
+Proof. apply view_names_ok. Qed.
 
 Theorem bridge_parents F merged s :
   TreeInv s -> doc_element s <> None -> doc_decl s = None -> ParentsOk (xdoc_of_store F merged s).
@@ -88,11 +88,11 @@ Qed.
 
 Theorem bridge_reachable :
   doc_element s <> None ->
-  DocInv doc /\ SpecShape doc /\ (doc_decl s = None -> ParentsOk doc).
+  DocInv doc /\ SpecShape doc /\ (doc_decl s = None -> ParentsOk doc /\ NamesOk doc).
 Proof.
   intros He. destruct reachable_good as [T O].
   split; [apply bridge_docinv; assumption|]. split; [apply bridge_shape; assumption|].
-  intros Hd. apply bridge_parents; assumption.
+  intros Hd. split; [apply bridge_parents; assumption | apply bridge_names; assumption].
 Qed.
 
 (** C07 on the edited document: every node-set value is duplicate-free and in document order by
@@ -194,16 +194,16 @@ End Positions.
 Theorem edited_path_query_refines F merged init ops k s :
   WGood init -> doc_at (run init ops) k = Some s ->
   doc_element s <> None -> doc_decl s = None ->
-  NamesOk (xdoc_of_store F merged s) ->
   forall (ns : list (option str * str)), ns_lookup ns None = None ->
   forall (p : path_expr) (c : ctx) (pos size : N), c_ns c = ns -> simple_path ns p ->
   exists lm : list node,
     query (xdoc_of_store F merged s) (path_query p) c = (XDoc.Ok (XNodes lm), c) /\
     spec_query (xdoc_of_store F merged s) ns pos size (path_query p) = Some (SNodes (map Row lm)).
 Proof.
-  intros Hi Hd He Hdt Hn ns Hns p c pos size Hc Hp.
-  destruct (bridge_reachable F merged init ops k s Hi Hd He) as [Hinv [Hsh Hpar]].
-  exact (path_query_agrees _ Hinv Hsh Hn (Hpar Hdt) ns Hns p c pos size Hc Hp).
+  intros Hi Hd He Hdt ns Hns p c pos size Hc Hp.
+  destruct (bridge_reachable F merged init ops k s Hi Hd He) as [Hinv [Hsh Hpn]].
+  destruct (Hpn Hdt) as [Hpar Hn].
+  exact (path_query_agrees _ Hinv Hsh Hn Hpar ns Hns p c pos size Hc Hp).
 Qed.
 
 (** ** "as on a fresh parse": the value depends on the tree only *)
@@ -220,6 +220,17 @@ Lemma map_row_inj (l1 l2 : list node) : map Row l1 = map Row l2 -> l1 = l2.
 Proof.
   revert l2. induction l1 as [|x t IH]; intros [|y u] H; cbn [map] in H; try discriminate; [reflexivity|].
   inversion H. f_equal. apply IH. assumption.
+Qed.
+
+(** whatever refinement theorem gives the specification's node-set for an expression on two tables
+    showing the same tree: the two lists of rows are equal *)
+Theorem same_tree_same_nodeset d1 d2 ns pos size e l1 l2 :
+  same_tree d1 d2 ->
+  spec_query d1 ns pos size e = Some (SNodes (map Row l1)) ->
+  spec_query d2 ns pos size e = Some (SNodes (map Row l2)) -> l1 = l2.
+Proof.
+  intros Hs H1 H2. rewrite (spec_query_tree_only d1 d2 Hs) in H1. rewrite H1 in H2.
+  inversion H2 as [E]. apply map_row_inj. exact E.
 Qed.
 
 (** Two tables satisfying the hypotheses of the C05 fragment that are equal up to ids, order keys
@@ -249,7 +260,6 @@ Theorem query_depends_on_tree_only F1 F2 merged init ops k s1 s2 :
   WGood init -> doc_at (run init ops) k = Some s1 ->
   TreeInv s2 -> OrderInv s2 ->
   doc_element s1 <> None -> doc_decl s1 = None -> doc_element s2 <> None -> doc_decl s2 = None ->
-  NamesOk (xdoc_of_store F1 merged s1) ->
   same_tree (xdoc_of_store F1 merged s1) (xdoc_of_store F2 merged s2) ->
   forall (ns : list (option str * str)), ns_lookup ns None = None ->
   forall (p : path_expr) (c1 c2 : ctx), c_ns c1 = ns -> c_ns c2 = ns -> simple_path ns p ->
@@ -258,10 +268,10 @@ Theorem query_depends_on_tree_only F1 F2 merged init ops k s1 s2 :
     query (xdoc_of_store F2 merged s2) (path_query p) c2 = (XDoc.Ok (XNodes l), c2) /\
     spec_query (xdoc_of_store F1 merged s1) ns 0 0 (path_query p) = Some (SNodes (map Row l)).
 Proof.
-  intros Hi Hd T2 O2 He1 Hd1 He2 Hd2 Hn Hs.
+  intros Hi Hd T2 O2 He1 Hd1 He2 Hd2 Hs.
   destruct (bridge_reachable F1 merged init ops k s1 Hi Hd He1) as [I1 [S1 P1]].
+  destruct (P1 Hd1) as [P1' N1].
   apply same_tree_same_paths; try assumption.
-  - apply P1. exact Hd1.
   - apply bridge_docinv; assumption.
   - apply bridge_shape; assumption.
   - apply bridge_parents; assumption.
